@@ -19,8 +19,10 @@ import sys
 import time
 
 ROOT = os.path.dirname(os.path.abspath(__file__))
-HARNESS = os.path.join(ROOT, "harness")
-BIN = os.path.join(ROOT, ".bin")
+# VERIF_HARNESS: private working copy of harness/ (development only); its build output and evidence stay beside it
+HARNESS = os.environ.get("VERIF_HARNESS", os.path.join(ROOT, "harness"))
+PRIVATE = "VERIF_HARNESS" in os.environ
+BIN = os.path.join(HARNESS, ".bin") if PRIVATE else os.path.join(ROOT, ".bin")
 REPO = os.environ.get("VERIF_REPO", "/repo")
 
 # property -> settings. shards: (quick, thorough); timeout_s per shard: (quick, thorough)
@@ -126,7 +128,7 @@ def check(pid, tier):
     nshards = conf.get("shards", DEFAULT_SHARDS)[ti]
     timeout = conf.get("timeout", DEFAULT_TIMEOUT)[ti]
     race = bool(conf.get("race"))
-    evpath = os.path.join(ROOT, "evidence", pid + ".json")
+    evpath = os.path.join(HARNESS if PRIVATE else ROOT, "evidence", pid + ".json")
     os.makedirs(os.path.dirname(evpath), exist_ok=True)
     if not build(need_cli=bool(conf.get("cli")), race=race):
         print("INCONCLUSIVE property=%s build failed" % pid)
